@@ -91,7 +91,7 @@ def _tasks(n):
         E.prove(f"C01.Switch.generate.in_range.wf[n{n}]", E.Implies(inr, wf(E, sw, tr)))
         E.refutable(f"switch.assess_generate_project.n{n}", E.eq(w, SReal(T.gen_w(gs[0].t, k.t, c.t, bargs[0].t))))
 
-    @task(f"switch.edit.n{n}", props=["C01", "C05", "C06", "C08", "C13", "C23"], functions=FUNCS)
+    @task(f"switch.edit.n{n}", props=["C01", "C05", "C06", "C08", "C13", "C23", "C34"], functions=FUNCS)
     def t_edit(E):
         z3, T = E.z3, E.I.T
         sw, gs, idx0, bargs0 = setup(E, n)
@@ -123,7 +123,8 @@ def _tasks(n):
                 body = E.And(E.eq(new.fields["subtraces"][j], ej), E.eq(E.method(new, "get_score"), E.method(ej, "get_score")),
                              E.eq(E.method(new, "get_retval"), E.method(ej, "get_retval")),
                              E.eq(w, SReal(T.edit_w(gs[j].t, k.t, subs[j].t, rq, ad))))
-                E.prove(f"C13.Switch.edit.same_index.in_range.behaves_as_branch[{j}of{n}]", E.Implies(here, body))
+                # (C34: the executed branch's sub-trace is what get_subtrace returns; its score must be the switch's score)
+                E.prove(f"C13.Switch.edit.same_index.in_range.behaves_as_branch[{j}of{n}]", E.Implies(here, body), also=["C34"])
                 fresh = T.fresh(gs[j].t, subs[j].t, rq, ad)
                 E.prove(f"C05.Switch.edit.same_index.weight_is_score_change[{j}of{n}]",
                         E.Implies(z3.And(here, z3.Not(fresh)), E.eq(w, score_change)))
@@ -151,6 +152,22 @@ def _tasks(n):
             # a changed index resamples the new branch; with a constraint covering nothing the weight must be 0-sum
             E.prove(f"C08.Switch.edit.changed_index_retdiff_is_new_retval[n{n}]",
                     E.eq(E.call(INC + ":Diff.tree_primal", rd), E.method(new, "get_retval")))
+            if n == 2:
+                # C06 round trip across an index change: the real edit executed a second time, on its own output, with its own
+                # backward request and argdiffs leading back to the old index and arguments, must give back the old branch's
+                # choices with the negated weight
+                back_ads = tuple(E.opaque(f"back_argdiffs{j}", "tuple") for j in range(n))
+                for j, a in enumerate(back_ads):
+                    E.assume(z3.And(T.d_is_tree(a.t), T.d_primal(a.t) == bargs0[j].t))
+                back = (diff(E, idx0, UnknownChange(E)),) + back_ads
+                st2, val2 = E.attempt(lambda: E.method(sw, "edit", key(E, "key2"), new, bwd, back))
+                E.require(f"C06.Switch.edit.changed_index.backward_request_can_be_applied[n{n}]", st2 == "ok", raised=str(val2))
+                new2, w2 = val2[0], val2[1]
+                for j in range(n):
+                    E.prove(f"C06.Switch.edit.changed_index.bwd_restores_the_old_branch_choices_and_negates_the_weight[{j}of{n}]",
+                            E.Implies(clamp_old == j, E.And(
+                                T.tr_choices(E.I.to_u(new2.fields["subtraces"][j])) == T.tr_choices(subs[j].t),
+                                E.eq(w2, E.I.unaryop("USub", w)))))
         E.refutable(f"switch.edit.n{n}", E.eq(w, 0.0))
     return t_sim, t_agp, t_edit
 
